@@ -157,6 +157,18 @@ def units():
               'uninitialized_value_construct_n__pE_u8_penable_if_is_trivial_iterator_traits_pE__value_type__value__type']:
         add('mem14.%s.NR' % m[:48], m, ['C15', 'C02', 'C09'], 2, 'StdVectorBase_E_A_u8', 'u8', 'ElemNR', throws_reachable=not (m.startswith('destroy') or '_move_n_' in m or '_relocate_n_' in m))
         us[-1]['cfg'] = 'main14dbg'
+    DEFN = 'uninitialized_default_construct_n__pE_u8_penable_if_is_trivially_default_constructible_iterator_traits_pE__value_type__value__type'
+    for elem in ('ElemNR', 'ElemTR', 'ElemTC'):
+        et = ELEM_TAG[elem]
+        lst = [('destroy_at__pE_penable_if_is_array_E__value__type', False), ('relocate_at__pE_pE', False),
+               ('memory_details__relocate_at_impl__pE_pE_' + ('Default' if elem == 'ElemNR' else 'MemMove'), False), (DEFN, elem != 'ElemTC')]
+        if elem != 'ElemNR':
+            lst.append(('memory_details__uninitialized_relocate_n_impl__pE_u8_pE_MemMove', False))
+        for m, thr in lst:
+            add('mem14.%s.%s' % (m.replace('memory_details__', '')[:40], et), m, ['C15', 'C02', 'C09'], 2, 'StdVectorBase_E_A_u8', 'u8', elem, throws_reachable=thr)
+            us[-1]['cfg'] = 'main14dbg'
+            cur = 'first' if elem == 'ElemTC' else 'current'
+            us[-1]['defs'].update({'DEFCON_CUR': cur, 'DEFCON_CUR0': 'LE(%s)' % cur})
     # ---- C14: byte-wise relocation lemma on the real accessors, per base flavour (element category TR: the containers that claim the trait)
     for fl, (fnum, bpat, vpat) in FLAV.items():
         b = bpat % 'u8'
